@@ -377,7 +377,7 @@ def run(ctx):
                 case = {"par": list(par), "kind": kind, "attrs_repr": repr(attrs)}
                 check_all(ctx, lib, rng, par, attrs, kind, case, range(n), lambda s: [None] + list(range(0, R.height(ch, s) + 2)))
         ctx.exhaustive.append("all ordered trees with %d nodes x every start x maxlevel None,0..h+1 x 10 option sets%s" % (n, " x 3 node classes" if n <= 5 else ""))
-    nrand = (10000 if T else 480) // ctx.nshards + 1
+    nrand = (60000 if T else 480) // ctx.nshards + 1
     for r in range(nrand):
         rng = ctx.rng("rand", r)
         n = rng.randint(1, 25)
